@@ -18,6 +18,12 @@ pub fn init_object_prototype(interp: &mut Interpreter) {
 
     interp.register_method(&proto, "hasOwnProperty", object_has_own_property, 1);
     interp.register_method(&proto, "isPrototypeOf", object_is_prototype_of, 1);
+    interp.register_method(
+        &proto,
+        "propertyIsEnumerable",
+        object_property_is_enumerable,
+        1,
+    );
     interp.register_method(&proto, "toString", object_to_string, 0);
     interp.register_method(&proto, "toLocaleString", object_to_locale_string, 0);
     interp.register_method(&proto, "valueOf", object_value_of, 0);
@@ -656,6 +662,35 @@ pub fn object_has_own_property(
     let arg = args.first().cloned().unwrap_or(JsValue::Undefined);
     let has_prop = has_own_property(interp, this, &arg)?;
     Ok(Guarded::unguarded(JsValue::Boolean(has_prop)))
+}
+
+/// Object.prototype.propertyIsEnumerable
+/// Returns true if the object has the property itself and a for-in loop would visit it.
+pub fn object_property_is_enumerable(
+    interp: &mut Interpreter,
+    this: JsValue,
+    args: &[JsValue],
+) -> Result<Guarded, JsError> {
+    let arg = args.first().cloned().unwrap_or(JsValue::Undefined);
+    let enumerable = match &this {
+        JsValue::Object(obj) => {
+            let key = interp.property_key_from_value(&arg);
+            obj.borrow()
+                .get_own_property_with_exotic(&key)
+                .is_some_and(|prop| prop.enumerable())
+        }
+        JsValue::String(text) => match interp.property_key_from_value(&arg) {
+            PropertyKey::Index(i) => (i as usize) < text.as_str().chars().count(),
+            _ => false,
+        },
+        JsValue::Null | JsValue::Undefined => {
+            return Err(JsError::type_error(
+                "Object.prototype.propertyIsEnumerable called on null or undefined",
+            ));
+        }
+        _ => false,
+    };
+    Ok(Guarded::unguarded(JsValue::Boolean(enumerable)))
 }
 
 /// Object.prototype.isPrototypeOf
